@@ -161,10 +161,33 @@ def match_method(I, m, name, args, kwargs, node=None):
         k = args[0] if args else 0
         if k in m.groups:
             return m.groups[k]
+        if isinstance(m.string, SStr):
+            # a capture group of a symbolic match: an (uninterpreted) function of the subject
+            f = I.ctx.opaque_fn("regroup_%s" % k, [z3.StringSort()], z3.StringSort())
+            return mk_str(f(m.string.z))
         raise OutOfReach("match.group(%r) of a symbolic match" % (k,))
     if name in ("start", "end") and getattr(m, name) is not None:
         return getattr(m, name)
     raise OutOfReach("match.%s of a symbolic match" % name)
+
+
+@B.library("re.sub")
+def _re_sub(I, args, kwargs):
+    pat, repl, subj = args[0], args[1], args[2]
+    flags = kwargs.get("flags", args[4] if len(args) > 4 else 0)
+    if not isinstance(pat, str):
+        raise OutOfReach("re.sub with symbolic pattern")
+    return re_method(I, ReConst(pat, flags), "sub", [repl, subj], {}, None)
+
+
+@B.library("re.search")
+def _re_search(I, args, kwargs):
+    return re_method(I, ReConst(args[0], args[2] if len(args) > 2 else 0), "search", [args[1]], {}, None)
+
+
+@B.library("re.match")
+def _re_match(I, args, kwargs):
+    return re_method(I, ReConst(args[0], args[2] if len(args) > 2 else 0), "match", [args[1]], {}, None)
 
 
 @B.library("re.compile")
